@@ -15,8 +15,8 @@ BOUNDS = ("one cross-thread call per obligation; base with 2 priorities holding 
 OUT = ("REAL INTERLEAVINGS AND DATA RACES ARE NOT DECIDED: each thread's steps between two lock operations run atomically, the second "
        "thread only runs at points where the loop thread holds no lock; no ThreadSanitizer-style exploration; evbuffer/bufferevent "
        "cross-thread use; a th_notify_fn that fails hard leaves is_notify_pending set (later notifications are suppressed) -- not checked. "
-       "Spurious condition-variable wake-ups are outside the ordinary obligations (assumption) and recorded as known finding "
-       "KF-C09-spurious-wakeup by the two delwait_spurious_* obligations")
+       "One spurious condition-variable wake-up per wait is covered by the two delwait_spurious_* obligations (the re-check loop added by "
+       "fixes/C09-del-wait-loop.diff); the other delwait obligations assume none")
 TEXT = ("(i) every EVENT_BASE_ASSERT_LOCKED of event.c/evmap.c holds on all explored paths and the lock monitor never sees an unlock of an "
         "unheld lock, a re-entry or a condition wait without the lock; (ii) whenever a call from a non-owner thread made a callback active, "
         "set a deadline earlier than the loop's current sleep, changed the back end's fd/signal set, removed the last event or asked the "
@@ -26,7 +26,7 @@ TEXT = ("(i) every EVENT_BASE_ASSERT_LOCKED of event.c/evmap.c holds on all expl
         "under AUTOBLOCK, never in the loop thread), holding the base lock once and counted in current_event_waiters, and the loop "
         "broadcasts exactly once after the callback has returned and current_event is cleared.")
 NOTE = "Trusted: cbmc, env/locks.h monitor (condition wait returns immediately and is recorded), env/evbase.h constructed base."
-ASSUMPTIONS = ["condition variables wake only on signal/broadcast and re-acquire the lock (no spurious wake-ups)",
+ASSUMPTIONS = ["condition variables re-acquire the lock on return; they wake only on signal/broadcast except in delwait_spurious_* (first wait returns spuriously)",
                "lock callbacks behave as a recursive counting mutex; thread identity is what evthread_id_fn_ reports",
                "th_notify_fn succeeds (stub counter); base constructed as in env/evbase.h; no allocation or back-end faults (those are C08's subject)"]
 DESIGN_REF = "DESIGN.md §5 C09"
@@ -122,13 +122,12 @@ def obligations(tier):
         obs.append(_ob(D, "ACTIVE", "sig", 2, th))
     obs.append(_ob(D, "ADD", "io", 2, 2))
     obs.append(_ob(D, "ACTIVE", "io", 2, 2))
-    # known finding: a spurious condition wake-up (POSIX allows it) lets event_del return while the callback still runs;
-    # the ordinary delwait obligations above are the KF_EXCLUDE side (assumption: no spurious wake-ups)
+    # a spurious condition wake-up (POSIX allows it) must not let event_del return while the callback still runs
+    # (was a defect: single `if`-guarded wait; fixed in /repo by waiting in a loop, fixes/C09-del-wait-loop.diff)
     for op in ("DEL", "DEL_BLOCK"):
-        obs.append(_ob("delwait_spurious", op, "io", 2, 2, expect_fail=["condition wait woke up spuriously and is not re-checked"],
-                       known_finding="KF-C09-spurious-wakeup"))
+        obs.append(_ob("delwait_spurious", op, "io", 2, 2))
     if tier != "quick":
         for o in list(obs):
-            if (o["name"].startswith("delwait_del") or "_add_" in o["name"]) and not o.get("known_finding"):
+            if (o["name"].startswith("delwait_del") or "_add_" in o["name"]):
                 n = dict(o); n["name"] += "_ndebug"; n["ndebug"] = True; n["desc"] += " (NDEBUG build)"; obs.append(n)
     return obs
